@@ -60,7 +60,7 @@ pub fn gen_line(rng: &mut Rng) -> String {
 
 /// a line calling the real `exit` / `goto`: codes at and around the limits of i32, padded, signed,
 /// empty, non-ASCII digits, from variables; labels with and without the colon, several, empty ones
-fn gen_real_line(rng: &mut Rng) -> String {
+pub fn gen_real_line(rng: &mut Rng) -> String {
     const CODES: [&str; 30] = ["0", "1", "-1", "+1", "7", "255", "256", "-0", "+0", "000", "007", "2147483647", "2147483648", "-2147483648", "-2147483649", "99999999999", "\"1 \"", "\" 3\"", "\"2\\n\"", "\"\"", "1.0", "1e1", "0x1", "abc", "--1", "+-1", "+", "-", "\u{663}", "1_0"];
     let mut s = String::new();
     if rng.chance(1, 4) {
